@@ -46,7 +46,7 @@ def oracle(o):
 def run(ctx):
     n = 24 if ctx.thorough() else 2
     proof_ok, detail = True, {}
-    ok, out = ctx.regen(["arith", "policy"])
+    ok, out = ctx.regen(["arith", "policy", "chunkpreds"])
     if not ok:
         proof_ok = False
         detail["translator"] = out[-2000:]
